@@ -46,6 +46,10 @@ CFGS = [
     {"confidence_threshold": 0.9, "reaction_col": "reaction", "id_col": "id"},
     {"confidence_threshold": 0, "reaction_col": "rxn", "id_col": "id"},
     {"confidence_threshold": 0, "reaction_col": "reaction", "id_col": "rid"},
+    # two thresholds 0.0004 apart on either side of the confidence 0.867 (float32 0.86699998…) of input B's second MCS row:
+    # they agree to three decimals, yet the row is kept under the first and demoted under the second
+    {"confidence_threshold": 0.8668, "reaction_col": "reaction", "id_col": "id"},
+    {"confidence_threshold": 0.8672, "reaction_col": "reaction", "id_col": "id"},
 ]
 INPUTS = {
     "A": ["C>>C", "CC(=O)C>>CC(O)C", "CCO>>CC=O", "xx>>C"],  # balanced / rule-based / malformed: never reaches MCS
@@ -625,6 +629,8 @@ REGRESSION = {
     # 676bf5c: threshold 0 then 0.9 over one directory served the threshold-0 rows
     "threshold-0-then-0.9": [R(0, "B"), R(2, "B"), R(1, "B"), R(0, "B"), R(2, "B")],
     "threshold-per-batch": [R(0, "B", 1), R(2, "B", 1), R(1, "B", 2), R(2, "B", 2)],
+    # thresholds closer than the printed resolution of a confidence are still different configurations
+    "threshold-within-rounding": [R(5, "B"), R(6, "B"), R(5, "B"), R(6, "B", 1), R(5, "B", 1)],
     "column-names": [R(0, "A"), R(3, "A"), R(4, "A"), R(3, "A", form="dict"), R(0, "A", form="dict")],
     # f8ec0af: a truncated entry made the next run raise JSONDecodeError
     "truncated-entry": [R(0, "A"), T(0, "A", 0, "half"), R(0, "A"), R(0, "A")],
@@ -657,6 +663,10 @@ def regression(ctx, w):
     if r0["status"] == "completed" and r2["status"] == "completed" and loose_eq(r0["rows"], r2["rows"]):
         ctx.notes.append("thresholds 0 and 0.9 give the same rows on input B: the threshold regression is vacuous")
         ctx.obligation("threshold-regression-nonvacuous", "harness", False, "input B no longer has an MCS row between the thresholds")
+    r5, r6 = w.reference(5, "B", "str", None, True), w.reference(6, "B", "str", None, True)
+    if r5["status"] == "completed" and r6["status"] == "completed" and loose_eq(r5["rows"], r6["rows"]):
+        ctx.notes.append("thresholds 0.8668 and 0.8672 give the same rows on input B: the close-threshold regression is vacuous")
+        ctx.obligation("close-threshold-regression-nonvacuous", "harness", False, "input B no longer has an MCS row of confidence 0.867")
     return runs
 
 
